@@ -238,7 +238,7 @@ func checkLoneScan(p *Program, r *Result, fn *ssa.Function) {
 		if n == "builtin len" || n == "errors.New" || n == "fmt.Errorf" {
 			continue
 		}
-		if !(c.Block() == scan.Exit || scan.Exit.Dominates(c.Block())) {
+		if !p.completedAt(scan, c.Block()) {
 			r.Bad(sub, "scan", r.pos(c), "call to "+short(n)+" is not dominated by the completed scan of all stanzas")
 			return
 		}
